@@ -38,6 +38,41 @@ struct in_it
     bool operator!=(const in_it& o) const { return p != o.p; }
 };
 
+
+// a *genuinely* single-pass input iterator (istream_iterator semantics): all copies share one stream position and each
+// iterator caches the element it read; advancing any copy consumes the stream for all of them
+template<typename V>
+struct sp_stream
+{
+    const V* cur;
+    const V* end;
+};
+template<typename V>
+struct sp_it
+{
+    using iterator_category = std::input_iterator_tag;
+    using value_type = V;
+    using difference_type = std::ptrdiff_t;
+    using pointer = const V*;
+    using reference = const V&;
+    sp_stream<V>* s = nullptr;
+    V val{};
+    sp_it() = default;
+    explicit sp_it(sp_stream<V>* st) : s(st) { read(); }
+    void read()
+    {
+        if(s && s->cur != s->end)
+            val = *s->cur++;
+        else
+            s = nullptr;
+    }
+    reference operator*() const { return val; }
+    sp_it& operator++() { read(); return *this; }
+    sp_it operator++(int) { auto c = *this; read(); return c; }
+    bool operator==(const sp_it& o) const { return s == o.s; }
+    bool operator!=(const sp_it& o) const { return s != o.s; }
+};
+
 using bytes = std::vector<unsigned char>;
 
 static std::string show(const bytes& b)
@@ -280,6 +315,9 @@ struct explorer
                      (long)in.size());
                 step(s, "assign(input_it,input_it)," + lc, "assign(input" + show(in) + ")",
                      [&](A a) { return long(a.assign(in_it<V>{vv.data()}, in_it<V>{vv.data() + vv.size()}) - a.begin()); },
+                     after(s, in, 0), (long)in.size());
+                step(s, "assign(single_pass_it,single_pass_it)," + lc, "assign(single-pass" + show(in) + ")",
+                     [&](A a) { sp_stream<V> st{vv.data(), vv.data() + vv.size()}; return long(a.assign(sp_it<V>{&st}, sp_it<V>{}) - a.begin()); },
                      after(s, in, 0), (long)in.size());
             }
             for(std::size_t cnt = 0; cnt <= N; cnt++)
